@@ -4,7 +4,7 @@
    produced by encoders do not.  These facts are sampled by the correspondence run. *)
 From Coq Require Import String List NArith.
 From Http Require Import Model.Bytes Model.Headers Model.Coding Model.Inflate Spec.DeflateStored
-     Proofs.Rewrite Proofs.CodingGlue Proofs.InflateC15 Proofs.InflateStored.
+     Proofs.Rewrite Proofs.CodingGlue Proofs.InflateC15 Proofs.InflateStored Proofs.HuffmanCanon Proofs.HuffmanFixed.
 Import ListNotations.
 
 Theorem C13_decode_inverts_every_stack :
@@ -76,3 +76,37 @@ Proof.
     split; [intros y; reflexivity|].
     split; [reflexivity|]. split; [vm_compute; reflexivity|]. split; [vm_compute; reflexivity|]. reflexivity.
 Qed.
+
+(* ---- Huffman-coded blocks: first steps towards encoders of levels 1-9 ---- *)
+
+(* For EVERY list of code lengths: the canonical code (RFC 1951 3.2.2) of a symbol of length L, written
+   most significant bit first, is decoded to that symbol by the model's one-bit-at-a-time decoder, and the
+   input is left just behind the code.  The only premise is that the code fits its length, which holds
+   whenever the lengths are not over-subscribed.  (bits_of: the bits an input state still presents.) *)
+Theorem C13_canonical_code_decodes :
+  forall (lens : list N) (sym L : nat) (s : istate) (t : list bool),
+    1 <= L -> L <= 15 ->
+    nth_error lens sym = Some (N.of_nat L) ->
+    (code_value lens sym L < 2 ^ N.of_nat L)%N ->
+    bits_of s = code_bits lens sym L ++ t ->
+    exists s', dec_sym (mk_table lens) s = Ok sym s' /\ bits_of s' = t.
+Proof. exact dec_sym_canonical. Qed.
+Print Assumptions C13_canonical_code_decodes.
+
+(* one final block in the fixed code carrying literals only (zlib: Z_FIXED, no matches), specified by its
+   bits: any byte string whose bits, least significant first, are 1 1 0, the codes of the bytes, the code of
+   end-of-block and fewer than 8 padding bits, decodes to those bytes *)
+Theorem C13_fixed_literal_block_inverted :
+  forall (e d : bytes) (pad : list bool),
+    Forall (fun b => (b < 256)%N) d ->
+    flat_map byte_bits e = [true; true; false] ++ lit_bits d ++ pad ->
+    length pad < 8 ->
+    inflate_raw_model e = Some d.
+Proof. exact fixed_literal_block_inverts. Qed.
+Print Assumptions C13_fixed_literal_block_inverted.
+
+(* non-vacuity: what zlib (level 6, Z_FIXED) emits for "abc" is such a byte string *)
+Example C13_fixed_block_example :
+  exists pad, length pad < 8 /\
+    flat_map byte_bits [75; 76; 74; 6; 0]%N = [true; true; false] ++ lit_bits [97; 98; 99]%N ++ pad.
+Proof. exists [false; false; false; false; false; false]. split; [simpl; repeat constructor|]. vm_compute. reflexivity. Qed.
